@@ -281,7 +281,7 @@ def run(ctx, scratch):
     rng = ctx.rng
     quick = ctx.tier == 'quick'
     nmax = 12 if quick else 40
-    scale = 1 if quick else 6
+    scale = 1 if quick else 14
 
     with Impl(scratch) as impl:
         run_witnesses(ctx, impl)
